@@ -426,6 +426,32 @@ def template_programs():
     add("fn_name_hidden_by_scalar", {"step": step,
         "main": Fn([], Block([Expr(Block([Let("step", I(7)), Print(V("step"))])), Print(Call("step", I(1))),
                               Let("f", V("step")), Expr(Block([Let("step", I(8)), Print(CallV(V("f"), V("step")))]))]))})
+    # evaluation goes left to right and an operand is a VALUE once it has been evaluated: what a later operand does to
+    # the variable (element, field) it came from does not change it any more
+    bumpx = Fn([], Block([Expr(Asg(V("gx"), I(10)))], I(5)), "int")
+    two = Fn(["a", "b"], Block([], Bin("+", Bin("*", V("a"), I(100)), V("b"))), "int", ["int", "int"])
+    def setv(x, v, r):
+        return Block([Expr(Asg(V(x), v))], r)
+    add("eval_order_infix", {"bumpx": bumpx, "main": Fn([], Block([
+        Print(Bin("+", V("gx"), Call("bumpx")), V("gx")),
+        Let("y", I(1)), Print(Bin("*", V("y"), setv("y", I(5), I(2))), V("y")), Print(Bin("-", V("y"), setv("y", I(50), I(1))), V("y")),
+        Print(Bin("==", V("y"), setv("y", I(9), I(50))), Bin("<", V("y"), setv("y", I(0), I(5))), V("y")),
+        Let("s", S("a")), Print(Bin("+", V("s"), setv("s", S("b"), S("c"))), V("s")),
+        Let("t", B(True)), Print(Bin("&", V("t"), setv("t", B(False), B(True))), Bin("|", V("t"), setv("t", B(True), B(False))), V("t")),
+        Let("f", F(15, 1)), Print(Bin("+", V("f"), setv("f", F(5, 1), F(10, 1))), V("f"))]))}, globs=[("gx", I(1))])
+    add("eval_order_arguments", {"two": two, "main": Fn([], Block([
+        Let("y", I(1)), Print(Call("two", V("y"), setv("y", I(5), I(4))), V("y")),
+        Let("c", FnLit(["a", "b"], Block([], Bin("-", V("a"), V("b"))), "int", ["int", "int"])), Print(CallV(V("c"), V("y"), setv("y", I(1), I(2))), V("y")),
+        Print(V("y"), setv("y", I(6), V("y")), V("y")),
+        Print(List(V("y"), setv("y", I(7), V("y")), V("y"))), Let("o", Obj(a=V("y"), b=setv("y", I(8), V("y")), c=V("y"))), Print(Mem(V("o"), "a"), Mem(V("o"), "b"), Mem(V("o"), "c"))]))})
+    add("eval_order_compound_assignment", main(
+        Let("x", I(1)), Expr(Asg(V("x"), setv("x", I(100), I(1)), "+=")), Print(V("x")),
+        Let("l", List(I(1), I(2))), Print(Idx(V("l"), setv("l", List(I(9), I(8)), I(0))), V("l"))))
+    add("eval_order_elements", {"two": two, "main": Fn([], Block([
+        Let("l", List(I(1), I(2))), Print(Call("two", Idx(V("l"), I(0)), Block([Expr(Asg(Idx(V("l"), I(0)), I(7)))], I(2))), V("l")),
+        Print(Bin("+", Idx(V("l"), I(1)), Block([Expr(Asg(Idx(V("l"), I(1)), I(30)))], I(1))), V("l")),
+        Let("o", Obj(v=I(1))), Print(Call("two", Mem(V("o"), "v"), Block([Expr(Asg(Mem(V("o"), "v"), I(9)))], I(3))), Mem(V("o"), "v")),
+        Print(List(Idx(V("l"), I(0)), Block([Expr(Asg(Idx(V("l"), I(0)), I(0)))], I(5)), Idx(V("l"), I(0))))]))}, element_operand=True)
     add("fn_values_displayed", {"step": step, "mk": Fn([], Block([], times10), "fn(n: int) -> int"),
         "main": Fn([], Block([Let("f", V("step")), Let("g", times10), Let("h", Call("mk")), Print(V("step"), V("f"), V("g"), V("h")),
                               Print(List(V("f"), V("g"))), Print(Obj(a=V("f"), b=V("h")))]))})
